@@ -106,7 +106,20 @@ func (m *Model) Clone() *Model {
 			c.Objs[i].Proto = mp[o.Proto]
 		}
 	}
-	// property values never hold modelled objects (values are primitives or functions), so no fix-up there
+	// values that are modelled objects (tag O<i>) must point into the copy
+	fix := func(v *Val) {
+		if v.K == Obj && v.O != nil {
+			v.O = mp[v.O]
+		}
+	}
+	for _, o := range c.Objs {
+		for _, p := range o.props {
+			fix(&p.Value)
+		}
+	}
+	for i := range c.Slots {
+		fix(&c.Slots[i])
+	}
 	return c
 }
 
